@@ -197,7 +197,13 @@ impl PaMap {
                     if let PathAttributeType::Invalid(n) = pa.type_code().into() {
                         warn!("invalid PA {}:\n{}", n, pdu.fmt_pcap_string());
                     }
-                    pa_map.attributes_mut().insert(pa.type_code(), pa.to_owned()?);
+                    // If an attribute appears more than once, all but the
+                    // first occurrence are discarded (RFC 7606, 3.g). This is
+                    // also what `PathAttributes::get`, and thus
+                    // `OwnedPathAttributes::get`, return.
+                    let owned = pa.to_owned()?;
+                    pa_map.attributes_mut().entry(pa.type_code())
+                        .or_insert(owned);
                 }
             } else {
                 return Err(ComposeError::InvalidAttribute);
